@@ -3,19 +3,20 @@
 (* client that keeps reading at its own pace.  What the proxy owes the client before it closes is known per scenario           *)
 (* (expected = length of the output, sum = a position-weighted checksum computed by the harness over both byte strings):     *)
 (* the client must receive exactly that, then end-of-stream, promptly.                                                        *)
-(* Case: [id, explen, expsum, gotlen, gotsum, eof, wait_ms (between the last byte and end-of-stream), limit_ms]                *)
+(* Case: [id, prop ("C07" | "C01"), who ("client" | "origin"), explen, expsum, gotlen, gotsum, eof, wait_ms, limit_ms]              *)
+(* (also used by C01 for both directions of real tunnels: what one side sent is what the other side received)                  *)
 EXTENDS Naturals, Sequences, Json, IOUtils, TLC
 Cases == JsonDeserialize(IOEnv.TRACE_FILE)
 VARIABLES tid, verdict
 vars == <<tid, verdict>>
 C == Cases[tid]
 Why ==
-    IF C.gotlen < C.explen THEN "C07 the client received " \o ToString(C.gotlen) \o " of " \o ToString(C.explen) \o " bytes of output before "
+    IF C.gotlen < C.explen THEN C.prop \o " the " \o C.who \o " received " \o ToString(C.gotlen) \o " of " \o ToString(C.explen) \o " bytes before "
                                   \o (IF C.eof THEN "end-of-stream" ELSE "the connection went quiet")
-    ELSE IF C.gotlen > C.explen THEN "C07 the client received more bytes than the output holds"
-    ELSE IF C.gotsum # C.expsum THEN "C07 the client received the right number of bytes but not the output itself (order / content)"
-    ELSE IF ~C.eof THEN "C07 the connection was not closed after the output had been delivered"
-    ELSE IF C.wait_ms > C.limit_ms THEN "C07 the close did not follow promptly once the output was out (" \o ToString(C.wait_ms) \o " ms)"
+    ELSE IF C.gotlen > C.explen THEN C.prop \o " the " \o C.who \o " received more bytes than were sent to it"
+    ELSE IF C.gotsum # C.expsum THEN C.prop \o " the " \o C.who \o " received the right number of bytes but not the bytes that were sent (order / content)"
+    ELSE IF ~C.eof THEN C.prop \o " the connection was not closed after everything had been delivered"
+    ELSE IF C.wait_ms > C.limit_ms THEN C.prop \o " the close did not follow promptly once everything was out (" \o ToString(C.wait_ms) \o " ms)"
     ELSE "ok"
 TInit == tid \in 1..Len(Cases) /\ verdict = ""
 TNext == verdict = "" /\ verdict' = Why /\ UNCHANGED tid
